@@ -465,6 +465,51 @@ def decodeMeta : Option Bytes → Option JobMeta
 def metaOk (m : JobMeta) : Bool :=
   decide (m.submit < 2 ^ 64) && (match m.ttl with | none => true | some t => decide (0 < t ∧ t < 2 ^ 64))
 
+/-! ### `Job<TKey, TMsg>` as a message (`factory/job.rs`, `cluster` feature) -/
+
+/-- `Job::deserialize`: `CallReply` ⇒ `Err`; otherwise `deserialize_meta(metadata)` — `None` or
+fewer than 16 bytes ⇒ `Err`, the key is `TKey::from_bytes(meta[16..])` (called unguarded: `none`
+of the key decoder stands for its panic, which `handle_message`'s `catch_unwind` contains), the
+options are the first 16 bytes — and then the inner message `TMsg::deserialize` of the same
+variant / args with `metadata: None`. Result: key, options, inner message. -/
+def decodeJob (kty : Ty) (vs : List Variant) (m : SMsg) (md : Option Bytes) :
+    Option (Val × JobMeta × String × List Val) :=
+  match m with
+  | .callReply => none
+  | m =>
+    match decodeMeta md with
+    | none => none
+    | some jm =>
+      match decode kty jm.key with
+      | none => none
+      | some k => (deserialize vs m).map fun d => (k, jm, d.1, d.2)
+
+/-- `Job::serialize`: `serialize_meta` (16 option bytes, then the key's bytes) and the inner
+message's serialization, whose metadata slot receives the job metadata. -/
+def encodeJob (kty : Ty) (key : Val) (submit : Nat) (ttl : Option Nat) (v : Variant) (vals : List Val) :
+    Option (SMsg × Bytes) :=
+  (serialize v vals).map fun sm => (sm, encodeMeta ⟨submit, ttl, encode kty key⟩)
+
+/-! ### where the reply port stands (`parse.rs` `reply_port_index`, `codegen.rs` `build_ordered_bindings`) -/
+
+/-- `build_ordered_bindings(data_fields, port, port_index)`: the pattern / constructor argument
+list of a tuple-style `#[rpc]` variant — the data bindings in declaration order with the port
+binding inserted at `port_index` (the loop `for i in 0..total { if i == port_index {port} else
+{data[data_idx++]} }` as a structural recursion). -/
+def orderedBindings {α : Type} (port : α) : List α → Nat → List α
+  | data, 0 => port :: data
+  | [], _ + 1 => []            -- unreachable: the port index is an index into all fields
+  | d :: ds, k + 1 => d :: orderedBindings port ds k
+
+/-- `parse_rpc_variant`: the data fields are all fields except the one at `port_index` -/
+def dataFieldsOf {α : Type} (all : List α) (portIdx : Nat) : List α := all.eraseIdx portIdx
+
+/-- the two reply bridges of an `#[rpc]` variant (`gen_deserialize_port` on the callee's node:
+typed value ↦ `into_bytes`; `gen_serialize_port` on the caller's node: bytes ↦ `from_bytes` under
+`catch_unwind`, a panic ⇒ nothing is sent to the caller) composed: what the caller receives for the
+value `v : rt` the real actor answered. -/
+def replyBridge (rt : Ty) (v : Val) : Option Val := decode rt (encode rt v)
+
 /-! ## The run-time oracle (`C19.ok`), evaluated on the implementation's observations -/
 
 /-- What the harness reports for one stream: outcomes and consumed bytes when the stream
